@@ -70,6 +70,14 @@ def cases(tier, rng, schema, feats):
         f = line.split("\t")
         out.append(f"C16.txt.{n}\t" + "\t".join(f[1:]))
         n += 1
+    # ... and so must the two filtering lists (every arrangement of known / unknown entries of C14's corpus): a fix-up compiled
+    # only under one feature shows as a different decoded list in that build
+    from . import c14 as _c14
+    for line in _c14.cases(tier, rng.fork("c14"), base, []):
+        f = line.split("\t")
+        if f[1] == "dec2" or f[1] == "decty":
+            out.append(f"C16.flt.{n}\t" + "\t".join(f[1:]))
+            n += 1
     return out
 
 
